@@ -198,6 +198,41 @@ def strip_not(test: ast.AST) -> Tuple[ast.AST, bool]:
     return test, pos
 
 
+LOG_LEAVES = {"debug", "info", "warning", "warn", "error", "exception", "critical", "log"}
+
+
+def is_neutral_stmt(s: ast.stmt) -> bool:
+    """Statements that do not change what a block decides: pass, docstrings / bare constants, logging calls."""
+    if isinstance(s, ast.Pass):
+        return True
+    if isinstance(s, ast.Expr):
+        if isinstance(s.value, ast.Constant):
+            return True
+        if isinstance(s.value, ast.Call) and isinstance(s.value.func, ast.Attribute) and s.value.func.attr in LOG_LEAVES:
+            from .cfg import is_logger_expr
+
+            return is_logger_expr(s.value.func.value)
+    return False
+
+
+def core_stmts(stmts) -> list:
+    return [s for s in stmts if not is_neutral_stmt(s)]
+
+
+def body_raises(stmts, noreturn=None) -> Optional[ast.stmt]:
+    """The block consists (apart from neutral statements) of exactly one statement that ends it abnormally:
+    a `raise`, or a call of a no-return function.  Returns that statement, else None."""
+    core = core_stmts(stmts)
+    if len(core) != 1:
+        return None
+    s = core[0]
+    if isinstance(s, ast.Raise):
+        return s
+    if noreturn is not None and isinstance(s, ast.Expr) and isinstance(s.value, ast.Call) and noreturn(s.value):
+        return s
+    return None
+
+
 def returns_of(fn: ast.AST) -> List[ast.Return]:
     return [n for n in walk_local(fn) if isinstance(n, ast.Return)]
 
